@@ -24,11 +24,22 @@ CLASS_SET = [
 ]
 
 
+COLD_START_AVAILABLE = True
+
+
 def clear_caches():
+    """Cold start through the public functools interface of the two memoised factories.  If a refactoring
+    replaced functools.cache by something without cache_clear, cold starts degrade to warm ones (said in the
+    evidence) instead of crashing the check."""
+    global COLD_START_AVAILABLE
     from kio.serial import entity_reader, entity_writer
 
-    entity_reader.cache_clear()
-    entity_writer.cache_clear()
+    for fn in (entity_reader, entity_writer):
+        clear = getattr(fn, "cache_clear", None)
+        if clear is None:
+            COLD_START_AVAILABLE = False
+        else:
+            clear()
 
 
 class Subject:
@@ -612,6 +623,7 @@ def run_c19(tier):
         "reference codec. Non-trivial = every history but the empty one, every fault position, every schedule"
     )
     c["exhaustive"] = not run.caps
+    c["cold_start_available"] = COLD_START_AVAILABLE
     run.assumptions += [
         "C-level code is atomic under the GIL; preemption inside one source line only in the opcode-traced frames",
         "no free-running data-race detector exists for CPython; none is run",
